@@ -429,6 +429,8 @@ PROFILE_FAULTS = [
     ("option", lambda op: ("x", raw("Option<u8>")), "Option<primitive> where the backend has no option support"),
     ("callbacks", lambda op: ("f", raw("impl Fn(u8) -> u8")), "callback where the backend has no callback support"),
     ("static_slices", lambda op: None, "'static slice where the backend has no static-slice support"),
+    ("traits_are_send", lambda op: None, "trait with a Send supertrait where the backend cannot honour it"),
+    ("traits_are_sync", lambda op: None, "trait with a Sync supertrait (alone) where the backend cannot honour it"),
 ]
 
 
@@ -483,6 +485,17 @@ def main(tier, seed):
                 if profiles.support(b)[flag]:
                     return dict(job=job, status="n/a")
                 opq = first(prog, "opaque")
+                if flag in ("traits_are_send", "traits_are_sync"):
+                    marker = "Send" if flag == "traits_are_send" else "Sync"
+                    mod = [m_ for m_ in prog.modules if opq in m_.items][0]
+                    mod.extra_src += "    pub trait VfMark: %s {\n        fn poke(&self, x: u8) -> u8;\n    }\n" % rng.choice([marker, "std::marker::" + marker, "core::marker::" + marker])
+                    if profiles.support(b).get("traits") and rng.random() < 0.5:
+                        add_method(opq, "use_mark", None, [("t", raw("impl VfMark"))], ("unit",))
+                    emit_rust.assign_abi_names(prog)
+                    src, cfg = tooltier.write_program(prog, d, tooltier.STD_CONFIG[b])
+                    rc, o, e = toolrun.run_tool(b, src, os.path.join(d, "out"), config_file=cfg)
+                    k, det = toolrun.classify_tool(rc, e)
+                    return dict(job=job, status="ran", outcome=k, det=det, src=src, expect_ctx=("VfMark", None), note=note, stderr=e[-1200:], sigs=[])
                 if flag == "static_slices":
                     m = add_method(opq, "bad_feature", ("ref", None), [("x", raw(rng.choice(["&'static [u8]", "&'static str", "&'static DiplomatStr16", "&'static [f64]"])))], ("unit",))
                 else:
